@@ -65,6 +65,34 @@ theorem all_sortQByName (f : QueryMatcher → Bool) (l : List QueryMatcher) :
   | nil => simp [sortQByName]
   | cons x xs ih => simp [sortQByName, all_insertQByName, ih]
 
+theorem all_insertEntry (f : String × StringMatch → Bool) (e : String × StringMatch) (l : List (String × StringMatch)) :
+    (insertEntry e l).all f = (f e && l.all f) := by
+  induction l with
+  | nil => simp [insertEntry]
+  | cons x xs ih =>
+    unfold insertEntry
+    split
+    · simp only [List.all_cons, ih]
+      cases f x <;> cases f e <;> simp
+    · simp [List.all_cons]
+
+theorem all_sortEntries (f : String × StringMatch → Bool) (l : List (String × StringMatch)) :
+    (sortEntries l).all f = l.all f := by
+  induction l with
+  | nil => simp [sortEntries]
+  | cons x xs ih => simp [sortEntries, all_insertEntry, ih]
+
+theorem sortEntries_eq_nil (l : List (String × StringMatch)) : sortEntries l = [] ↔ l = [] := by
+  constructor
+  · intro h
+    cases l with
+    | nil => rfl
+    | cons x xs =>
+      have hall := all_sortEntries (fun _ => false) (x :: xs)
+      rw [h] at hall
+      simp at hall
+  · intro h; subst h; rfl
+
 theorem mem_insertByName (a h : HeaderMatcher) (l : List HeaderMatcher) :
     a ∈ insertByName h l ↔ a = h ∨ a ∈ l := by
   induction l with
